@@ -1,6 +1,7 @@
 (* C15 property theorems only. *)
 From Coq Require Import List NArith Bool.
-From V Require Import C15.Model C15.Proofs C15.ProofsCold.
+From V Require Import C15.Model C15.Proofs C15.ProofsCold C15.ProofsMap C15.ProofsIdx C15.ProofsImm1 C15.ProofsImm2 C15.ProofsImm3
+  C15.ProofsImm5 C15.ProofsImm8 C15.ProofsDerive C15.ProofsEx.
 Import ListNotations.
 Open Scope N_scope.
 
@@ -74,6 +75,84 @@ Theorem C15_ineligible_pod_never_requeues : forall s id e old p sp,
   elig p = false -> q (pod_on_event s id e old p sp) = q s.
 Proof. exact not_eligible_never_requeues. Qed.
 Print Assumptions C15_ineligible_pod_never_requeues.
+
+(* ------------------------------------------------------------------ unbounded theorems *)
+(* PodCache: podsByIP and ipByPods are mutually inverse after EVERY schedule (any interleaving of writes and
+   handler runs, any lag, any re-queue order). *)
+Theorem C15_podcache_index_inverse : forall ops id ip,
+  smem id (getd [] ip (byip (run ops st0))) = true <-> get id (ipby (run ops st0)) = Some ip.
+Proof. exact idx_inv_all. Qed.
+Print Assumptions C15_podcache_index_inverse.
+
+(* Confluence, unbounded, for immediate-delivery schedules (the event of every write and what it re-queues are
+   handled before the next write; the writes of all objects arrive in ANY order) under the hypotheses
+   [good_step] that exclude the known findings:
+     H1  a pod is eligible (ready, with IP) in the write in which it first appears, and slices that already
+         reference it do so under that IP;
+     H1a pod updates keep label and service account, and never swap a non-empty IP for another one;
+     H1b a pod is deleted only when no stored slice references it;
+     H2  service writes happen while no slice exists (no service event after a slice event);
+     H3  every slice endpoint carries a targetRef, a slice keeps its service, and an address kept by a slice
+         update keeps its pod.
+   Then after every such schedule the queue is empty and PodCache, needResync, the slice cache and the services
+   map equal [derive] of the final objects pointwise; needResync holds exactly the (address, slice) pairs whose
+   pod is missing; the shard's endpoints are those of the slice cache, and its service accounts are those of
+   its endpoints whenever it has any (the zero-endpoint residue of finding C15-shard-residue is the only part
+   left out of the conclusion). *)
+Theorem C15_confluence_immediate_partial : forall ws, good_run st0 ws ->
+  let a := run (imm_ops st0 ws) st0 in
+  q a = [] /\ bad a = false /\ reg_equiv_derive a.
+Proof. exact imm_equals_derive. Qed.
+Print Assumptions C15_confluence_immediate_partial.
+
+(* the schedule really is the given writes, interleaved with handler steps *)
+Theorem C15_immediate_schedule_writes : forall ws s,
+  (forall w, In w ws -> match w with H _ => False | _ => True end) ->
+  filter (fun o => match o with H _ => false | _ => true end) (imm_ops s ws) = ws.
+Proof. exact writes_imm_ops. Qed.
+Print Assumptions C15_immediate_schedule_writes.
+
+(* order independence proper: two such schedules that end with the same objects end with the same registry *)
+Theorem C15_order_independent_immediate_partial : forall ws1 ws2,
+  good_run st0 ws1 -> good_run st0 ws2 ->
+  let a := run (imm_ops st0 ws1) st0 in let b := run (imm_ops st0 ws2) st0 in
+  sp a = sp b -> se a = se b -> ss a = ss b ->
+  q a = [] /\ q b = [] /\ bad a = false /\ bad b = false /\ reg_equiv a b /\
+  (forall h, shard_cands a h = (if exn a h then [] else cache_get a h)) /\
+  (forall h, shard_cands b h = (if exn b h then [] else cache_get b h)).
+Proof. exact confluence_immediate. Qed.
+Print Assumptions C15_order_independent_immediate_partial.
+
+(* every hypothesis is needed: immediate-delivery schedules that break exactly one of them and do not converge
+   (H1: wit_unready, H1a: wit_ip_change and wit_label_unready, H1b: wit_pod_deleted, H2: wit_svc_late,
+   H3: wit_noref); all are run against the real controller by the harness *)
+Theorem C15_confluence_hypotheses_needed_refuted :
+  converged wit_unready = false /\ converged wit_ip_change = false /\ converged wit_label_unready = false /\
+  converged wit_pod_deleted = false /\ converged wit_svc_late = false /\ converged wit_noref = false.
+Proof.
+  destruct not_confluent as (A & B & C & _). destruct not_confluent_more as (D & E & F & _).
+  repeat split; assumption.
+Qed.
+Print Assumptions C15_confluence_hypotheses_needed_refuted.
+
+(* finding C15-podcache-stale-ip: the old address keeps the pod although the cold start indexes nothing *)
+Theorem C15_podcache_ip_change_refuted :
+  byip (run wit_ip_change st0) = [(1, [0])] /\ ipby (run wit_ip_change st0) = [(0, 1)] /\
+  d_byip (sp (run wit_ip_change st0)) = [].
+Proof. exact ip_change_leaves_entry. Qed.
+Print Assumptions C15_podcache_ip_change_refuted.
+
+(* finding C15-duplicate-endpoint-map-order *)
+Theorem C15_duplicate_winner_order_refuted :
+  let a := [E 1 0 1 1 1] in let b := [E 1 0 1 1 4] in
+  dedup [] (a ++ b) <> dedup [] (b ++ a) /\ conflict (a ++ b) = true.
+Proof. exact duplicate_winner_depends_on_order. Qed.
+Print Assumptions C15_duplicate_winner_order_refuted.
+
+(* the hypotheses are satisfiable by a schedule with an endpoint seen before its pod, a readiness flip, the
+   endpoint's removal, the pod's deletion and IP reuse by a new pod; it converges (also by evaluation) *)
+Example C15_good_run_satisfiable : good_run st0 good_example /\ converged (imm_ops st0 good_example) = true.
+Proof. split; [exact good_example_good|vm_compute; reflexivity]. Qed.
 
 Example C15_hyp_satisfiable : exists (s : st) (ip id : N) (l : list N),
   smem id (getd [] ip (byip s)) = false /\ get ip (rsy s) = Some l /\ l <> [].
